@@ -61,6 +61,9 @@ func (c *Converter) ExpandUpdate(ctx context.Context, upd *sdcpb.Update, include
 	if err != nil {
 		return nil, err
 	}
+	if upd.GetValue() == nil {
+		return nil, fmt.Errorf("update for path %s carries no value", ToXPath(upd.GetPath(), false))
+	}
 
 	switch rsp := rsp.GetSchema().Schema.(type) {
 	case *sdcpb.SchemaElem_Container:
@@ -374,6 +377,9 @@ func isKey(s string, cs *sdcpb.SchemaElem_Container) bool {
 }
 
 func TypedValueToYANGType(tv *sdcpb.TypedValue, schemaObject *sdcpb.SchemaElem) (*sdcpb.TypedValue, error) {
+	if tv == nil {
+		return nil, errors.New("missing value")
+	}
 	switch tv.Value.(type) {
 	case *sdcpb.TypedValue_AsciiVal:
 		return ConvertToTypedValue(schemaObject, tv.GetAsciiVal(), tv.GetTimestamp())
@@ -605,6 +611,9 @@ func (c *Converter) ConvertTypedValueToProto(ctx context.Context, p *sdcpb.Path,
 }
 
 func ConvertTypedValueToYANGType(schemaElem *sdcpb.SchemaElem, tv *sdcpb.TypedValue) (*sdcpb.TypedValue, error) {
+	if tv == nil {
+		return nil, errors.New("missing value")
+	}
 	switch {
 	case schemaElem.GetContainer() != nil:
 		if schemaElem.GetContainer().IsPresence {
